@@ -6,12 +6,12 @@
    depth, every list of stored points and every index that describes it.
      Inv s        = stored points are well formed and an index flagged valid describes them;
      index_safe q = whenever the code's own guard (index_is_exact) sends q to the index, q has a
-                    shape the index answers exactly.  The two known findings F21 (a map() in a
-                    TimeQuery path) and F24 (a tag/field path that starts with map()) are the
-                    shapes outside it: for them see C01_refuted_* below. *)
+                    shape the index answers exactly.  Every query the DSL can build is index_safe
+                    (C01_dsl_is_index_safe; queries with a map() in their path are sent to the scan
+                    since the repair of F21/F24). *)
 From Coq Require Import List ZArith NArith Bool.
 From TF Require Import Base Query Index DB Spec proofs.QueryP proofs.IndexDefs proofs.ScanP proofs.IndexP
-     proofs.RepP proofs.DBReadP.
+     proofs.RepP proofs.DBReadP proofs.SelectP proofs.TimeP.
 Import ListNotations.
 
 Theorem C01_search_exact : forall E s q m srt, Inv s -> wf_query E q -> index_safe q ->
@@ -27,6 +27,26 @@ Theorem C01_get_exact : forall E s q m, Inv s -> wf_query E q -> index_safe q ->
   db_get E s q m = (read_prelude s, OPoint (spec_get E q m (st_rows s))).
 Proof. exact (fun E => db_get_spec E Rep_build). Qed.
 
+Theorem C01_select_exact : forall E s ks q m, Inv s -> wf_query E q -> index_safe q ->
+  db_select E s (Some ks) q m = (read_prelude s, OSel (spec_select E ks q m (st_rows s))).
+Proof. exact db_select_spec. Qed.
+(* every query the DSL can build is index_safe: the code's own guard sends it to the index only if the index answers it exactly *)
+Theorem C01_dsl_is_index_safe : forall q, dsl_query q = true -> index_safe q.
+Proof. exact dsl_index_safe. Qed.
+(* count / contains / get / select speak about the same points as search; sorted output is a permutation of the
+   unsorted one, in time order, stable (equal instants keep insertion order) *)
+Theorem C01_reads_agree : forall E q m db,
+  spec_count E q m db = length (spec_search E q m false db) /\
+  spec_contains E q m db = negb (match spec_search E q m false db with [] => true | _ => false end) /\
+  spec_get E q m db = hd_error (spec_search E q m false db) /\
+  (forall ks, spec_select E ks q m db = map (spec_project ks) (spec_search E q m false db)) /\
+  Permutation.Permutation (spec_search E q m true db) (spec_search E q m false db).
+Proof. exact reads_agree. Qed.
+Theorem C01_sorted_in_time_order : forall l, Sorted.StronglySorted (fun a b => (p_time a <= p_time b)%Z) (sort_points l).
+Proof. exact sort_points_sorted. Qed.
+Theorem C01_sorted_stable : forall l t, filter (fun p => Z.eqb (p_time p) t) (sort_points l) = filter (fun p => Z.eqb (p_time p) t) l.
+Proof. exact sort_points_stable. Qed.
+
 (* the index alone: a duplicate-free set of positions that is exactly the set of matches *)
 Theorem C01_index_exact : forall E i pts q, Rep i pts -> wf_points pts -> wf_query E q -> exact_for_index q = true ->
   exists items, isearch E i q = Some items /\ NoDup items /\
@@ -40,5 +60,9 @@ Print Assumptions C01_search_exact.
 Print Assumptions C01_count_exact.
 Print Assumptions C01_contains_exact.
 Print Assumptions C01_get_exact.
+Print Assumptions C01_select_exact.
+Print Assumptions C01_dsl_is_index_safe.
+Print Assumptions C01_reads_agree.
+Print Assumptions C01_sorted_stable.
 Print Assumptions C01_index_exact.
 Print Assumptions C01_scan_exact.
